@@ -27,8 +27,9 @@ import pilio
 import progen
 
 LEVEL = "proof"
-LEVEL_NOTE = ("theorems over the AST-level model for every lawful code table and every component satisfying the executable invariant wfB "
-              "(evaluated by the driver on every generated program of the run, not proved to follow from Comp.load); the regex of "
+LEVEL_NOTE = ("theorems over the AST-level model for every lawful code table and every component satisfying the executable invariant wfB; "
+              "wfB / wfInst are established by Comp.load / Sys.loadFile by theorem (wf_of_load, wfInst_of_loadFile, the *_of_load theorems) for sources "
+              "satisfying StmtNamesOk and CodesOk, and still evaluated by the driver on every generated program of the run as a cross-check; the regex of "
               "parse_fixed and the .comp/.sys text parsers are on the implementation side of the correspondence")
 
 IUPAC = {"A": "A", "C": "C", "G": "G", "T": "T", "R": "AG", "Y": "CT", "W": "AT", "S": "CG", "M": "AC", "K": "GT",
